@@ -2,8 +2,332 @@ package main
 
 import (
 	"encoding/json"
+	"fmt"
+	"math/rand"
+	"sync"
+	"time"
+
+	"github.com/centrifugal/centrifuge"
 
 	"verifharness/vh"
 )
 
-func trace(in json.RawMessage, res *vh.Result) error { return nil }
+type traceIn struct {
+	N     int `json:"n"`
+	Ops   int `json:"ops"`
+	Ticks int `json:"ticks"`
+}
+
+var traceCfgs = []chanCfg{
+	{"rec", false, 1, 2, 3, 5}, {"rec", true, 3, 3, 1, 5}, {"rec", false, 2, 1, 4, 6}, {"rec", true, 1, 3, 6, 6},
+	{"rec", false, 2, 2, 2, 4}, {"rec", true, 1, 2, 1, 1}, {"rec", false, 2, 3, 2, 2},
+	{"per", false, 0, 2, 1, 0}, {"per", true, 0, 3, 2, 0}, {"eph", false, 1, 0, 0, 0}, {"eph", true, 2, 0, 0, 0},
+}
+
+func modelScore(s int64) int {
+	switch {
+	case s < -1:
+		return -2
+	case s > 1:
+		return 2
+	}
+	return int(s)
+}
+
+// trace: a seeded random driver per channel against ONE real broker whose sweepers run; operations are spread over the
+// middle of each tick so that they collide with the sweepers' wake-ups. One event per operation is recorded (model
+// vocabulary) for validation against MapBrokerTrace.tla. Independently of the specification an observable-only monitor
+// judges key expiry from the event-handler log: a removal only for a live key (never twice), never before the key's
+// last refresh + TTL, and no key left after its deadline + slack.
+func trace(in json.RawMessage, res *vh.Result) error {
+	var cfg traceIn
+	if err := json.Unmarshal(in, &cfg); err != nil {
+		return err
+	}
+	reg := &registry{}
+	tick := time.Second
+	b, rec, closeFn := newBroker(reg, true)
+	defer closeFn()
+	// the sweepers wake about every second after registration: put those moments in the middle of the ticks
+	base := time.Now().Add(tick / 2)
+	traces := make([][]map[string]any, cfg.N)
+	var wg sync.WaitGroup
+	for ti := 0; ti < cfg.N; ti++ {
+		wg.Add(1)
+		go func(ti int) {
+			defer wg.Done()
+			traces[ti] = oneTrace(b, rec, reg, res, cfg, ti, base, tick)
+		}(ti)
+	}
+	wg.Wait()
+	res.Extra["traces"] = traces
+	return nil
+}
+
+type opTime struct {
+	key   string
+	start int64
+	end   int64
+}
+
+func oneTrace(b *centrifuge.MemoryMapBroker, rec *recorder, reg *registry, res *vh.Result, in traceIn, ti int, base time.Time, tick time.Duration) []map[string]any {
+	rng := rand.New(rand.NewSource(vh.Seed()*1000003 + int64(ti)))
+	cc := traceCfgs[rng.Intn(len(traceCfgs))]
+	ch := fmt.Sprintf("tr%d_%d", vh.Seed(), ti)
+	reg.set(ch, cc.options(tick))
+	ep := newEpochs()
+	keys := []string{"a", "b", "c"}
+	evs := []map[string]any{{"ev": "Cfg", "cf": map[string]any{"mode": cc.Mode, "ord": cc.Ord, "kttl": cc.KTTL, "size": cc.Size, "sttl": cc.STTL, "mttl": cc.MTTL}}}
+	now, npub := 0, 0
+	var refreshes []opTime // applied publishes and keep-alives of keys (for the monitor)
+	var log []bcast        // everything the handler received for the channel, in order
+	clears := map[int]bool{}
+	mid := func(n int) time.Time { return base.Add(time.Duration(n)*tick + tick/2) }
+	spread := func() { // somewhere in the middle 40 % of the tick, never backwards
+		at := mid(now).Add(time.Duration(rng.Int63n(int64(tick)*2/5)) - tick/5)
+		time.Sleep(time.Until(at))
+	}
+	late := func() bool { return time.Since(mid(now)) > tick/4 }
+	takeBc := func() []bcast {
+		h := rec.take(ch)
+		log = append(log, h...)
+		return h
+	}
+	ownBc := func(h []bcast, own func(bcast) bool) []map[string]any {
+		out := []map[string]any{}
+		for _, x := range h {
+			if own(x) {
+				out = append(out, map[string]any{"off": x.Off, "key": x.Key, "rm": x.Rm, "id": x.ID})
+			}
+		}
+		return out
+	}
+	peek := func() {
+		s := centrifuge.VerifMapPeek(b, ch)
+		ks, offs, ids := []string{}, []int{}, []int{}
+		for _, e := range s.State {
+			ks = append(ks, e.Key)
+			offs = append(offs, int(e.Offset))
+			id := 0
+			fmt.Sscan(string(e.Data), &id)
+			ids = append(ids, id)
+		}
+		win := []map[string]any{}
+		for _, it := range s.Stream {
+			id := 0
+			fmt.Sscan(string(it.Data), &id)
+			win = append(win, map[string]any{"off": int(it.Offset), "key": it.Key, "rm": it.Removed, "id": id})
+		}
+		evs = append(evs, map[string]any{"ev": "Peek", "chEx": s.Exists, "keys": ks, "offs": offs, "ids": ids, "top": int(s.Top), "win": win})
+	}
+	casArg := func() map[string]any {
+		if cc.Mode == "eph" || rng.Intn(3) > 0 {
+			return map[string]any{"has": false, "off": 0, "ep": 0}
+		}
+		s := centrifuge.VerifMapPeek(b, ch)
+		if len(s.State) > 0 && rng.Intn(2) == 0 { // the real position of a key (read-only look, the call below decides)
+			e := s.State[rng.Intn(len(s.State))]
+			return map[string]any{"has": true, "off": int(e.Offset), "ep": ep.number(s.Epoch)}
+		}
+		return map[string]any{"has": true, "off": rng.Intn(5), "ep": rng.Intn(3)}
+	}
+	updEv := func(name string, a map[string]any, got updRes, bc []map[string]any) map[string]any {
+		cur := []map[string]any{}
+		for _, c := range got.Cur {
+			cur = append(cur, map[string]any{"off": c.Off, "id": c.ID})
+		}
+		return map[string]any{"ev": name, "args": a, "bc": bc,
+			"res": map[string]any{"err": got.Err != "", "sup": got.Sup, "off": got.Off, "ep": ep.number(got.Ep), "cur": cur}}
+	}
+	time.Sleep(time.Until(mid(0)))
+	for i := 0; i < in.Ops && !late(); i++ {
+		switch r := rng.Intn(20); {
+		case r < 4:
+			if now >= in.Ticks {
+				continue
+			}
+			now++
+			time.Sleep(time.Until(mid(now).Add(-tick / 5)))
+			evs = append(evs, map[string]any{"ev": "Tick", "now": now})
+			spread()
+			if rng.Intn(2) == 0 {
+				takeBc()
+				peek()
+			}
+		case r < 11:
+			npub++
+			v := 0
+			ve := ""
+			if cc.Mode != "eph" && rng.Intn(3) == 0 {
+				v = 1 + rng.Intn(3)
+				ve = []string{"", "va", "vb"}[rng.Intn(3)]
+			}
+			ik := ""
+			ittl := 1
+			if rng.Intn(5) == 0 {
+				ik = []string{"k1", "k2"}[rng.Intn(2)]
+				ittl = 1 + rng.Intn(2)
+			}
+			sc := 0
+			if cc.Ord {
+				sc = rng.Intn(3) - 1
+			}
+			a := map[string]any{"key": keys[rng.Intn(3)], "km": []string{"", "", "if_new", "if_new_refresh", "if_new_refresh", "if_exists"}[rng.Intn(6)],
+				"cas": casArg(), "v": v, "ve": ve, "ik": ik, "ittl": ittl, "sc": sc, "id": npub}
+			t0 := time.Now().UnixMilli()
+			got := doPublish(b, ch, a, ep, tick)
+			t1 := time.Now().UnixMilli()
+			h := takeBc()
+			if got.Err == "" && (got.Sup == "" || (got.Sup == "key_exists" && vh.Str(a["km"]) == "if_new_refresh")) {
+				refreshes = append(refreshes, opTime{vh.Str(a["key"]), t0, t1})
+			}
+			evs = append(evs, updEv("Publish", a, got, ownBc(h, func(x bcast) bool { return !x.Rm && x.ID == npub })))
+			time.Sleep(1200 * time.Microsecond)
+		case r < 13:
+			ik := ""
+			if rng.Intn(6) == 0 {
+				ik = []string{"k1", "k2"}[rng.Intn(2)]
+			}
+			a := map[string]any{"key": keys[rng.Intn(3)], "cas": casArg(), "ik": ik, "ittl": 1 + rng.Intn(2)}
+			if ik == "" {
+				a["ittl"] = 1
+			}
+			got := doRemove(b, ch, a, ep, tick)
+			h := takeBc()
+			applied := got.Err == "" && got.Sup == ""
+			var mine []map[string]any
+			if applied {
+				// the removal this call produced: by its offset on stream-backed channels, else the last removal of the key
+				idx := -1
+				for j, x := range h {
+					if x.Rm && x.Key == vh.Str(a["key"]) && (!cc.hasStream() || x.Off == got.Off) {
+						idx = j
+					}
+				}
+				if idx >= 0 {
+					x := h[idx]
+					mine = []map[string]any{{"off": x.Off, "key": x.Key, "rm": true, "id": 0}}
+					log[len(log)-len(h)+idx].ID = -1 // marks "by Remove" for the monitor
+				}
+			}
+			if mine == nil {
+				mine = []map[string]any{}
+			}
+			evs = append(evs, updEv("Remove", a, got, mine))
+		case r < 14:
+			if rng.Intn(3) > 0 {
+				continue
+			}
+			if err := b.Clear(bg, ch, centrifuge.MapClearOptions{}); err != nil {
+				res.Violate("C20", "clear:error", err.Error(), nil)
+				return nil
+			}
+			takeBc()
+			clears[len(log)] = true
+			evs = append(evs, map[string]any{"ev": "Clear"})
+		case r < 17:
+			curArg := map[string]any{"has": false, "sc": 0, "k": ""}
+			if rng.Intn(2) == 0 {
+				curArg = map[string]any{"has": true, "sc": 0, "k": keys[rng.Intn(3)]}
+				if cc.Ord {
+					curArg["sc"] = rng.Intn(3) - 1
+				}
+			}
+			a := map[string]any{"cur": curArg, "limit": []int{-1, 0, 1, 2, 3}[rng.Intn(5)], "asc": rng.Intn(2) == 0, "key": "", "rev": map[string]any{"has": false, "ep": 0}}
+			if rng.Intn(4) == 0 {
+				a = map[string]any{"cur": map[string]any{"has": false, "sc": 0, "k": ""}, "limit": -1, "asc": false, "key": keys[rng.Intn(3)], "rev": map[string]any{"has": false, "ep": 0}}
+			} else if rng.Intn(5) == 0 {
+				a["rev"] = map[string]any{"has": true, "ep": rng.Intn(3)}
+			}
+			got := doReadState(b, ch, a, ep, cc.Ord)
+			pubs := []map[string]any{}
+			for _, p := range got.Pubs {
+				pubs = append(pubs, map[string]any{"key": p.Key, "off": p.Off, "id": p.ID, "sc": modelScore(p.Sc)})
+			}
+			next := map[string]any{"has": false, "sc": 0, "k": ""}
+			if got.Next != "" {
+				// decode the cursor through the entries of the page (it names the last one)
+				if n := len(got.Pubs); n > 0 && cursorStr(map[string]any{"has": true, "sc": modelScore(got.Pubs[n-1].Sc), "k": got.Pubs[n-1].Key}, cc.Ord) == got.Next {
+					next = map[string]any{"has": true, "sc": 0, "k": got.Pubs[n-1].Key}
+					if cc.Ord {
+						next["sc"] = modelScore(got.Pubs[n-1].Sc)
+					}
+				} else {
+					res.Violate("C21", "readstate:cursor", fmt.Sprintf("ReadState returned cursor %q that does not name the last entry of its page %s", got.Next, vh.J(got.Pubs)), nil)
+					return nil
+				}
+			}
+			evs = append(evs, map[string]any{"ev": "ReadState", "args": a,
+				"res": map[string]any{"err": got.Err != "", "pubs": pubs, "off": got.Off, "ep": ep.number(got.Ep), "next": next}})
+		default:
+			since := map[string]any{"has": false, "off": 0, "ep": 0}
+			if rng.Intn(3) > 0 {
+				since = map[string]any{"has": true, "off": rng.Intn(npub + 2), "ep": rng.Intn(3)}
+			}
+			a := map[string]any{"since": since, "limit": rng.Intn(5) - 1, "reverse": rng.Intn(2) == 0}
+			got := doReadStream(b, ch, a, ep)
+			evs = append(evs, map[string]any{"ev": "ReadStream", "args": a,
+				"res": map[string]any{"err": got.Err != "", "pubs": got.Pubs, "off": got.Off, "ep": ep.number(got.Ep)}})
+		}
+		if late() {
+			// the last event may have left its window: drop it, keep the valid prefix
+			evs = evs[:len(evs)-1]
+			res.Count("truncated_late", 1)
+			break
+		}
+	}
+	// let every deadline pass (plus sweeper slack), then look: nothing with a TTL may be left
+	if cc.KTTL > 0 && !late() {
+		for k := 0; k < cc.KTTL+3; k++ {
+			now++
+			time.Sleep(time.Until(mid(now)))
+			evs = append(evs, map[string]any{"ev": "Tick", "now": now})
+		}
+		takeBc()
+		peek()
+		if s := centrifuge.VerifMapPeek(b, ch); len(s.State) > 0 {
+			res.Violate("C24", "monitor:key-not-removed", fmt.Sprintf("%d ticks after the last operation key %s (TTL %d ticks) is still in the state of %+v", cc.KTTL+3, s.State[0].Key, cc.KTTL, cc), map[string]any{"trace": evs})
+		}
+	}
+	takeBc()
+	// ---- observable-only monitor over the handler log
+	live := map[string]bool{}
+	lastOff := -1
+	lastEp := ""
+	ttl := dur(cc.KTTL, tick).Milliseconds()
+	for i, x := range log {
+		if clears[i] {
+			live = map[string]bool{}
+			lastOff = -1
+		}
+		if x.Ep != lastEp {
+			live = map[string]bool{}
+			lastOff = -1
+			lastEp = x.Ep
+		}
+		if cc.hasStream() {
+			if lastOff >= 0 && x.Off != lastOff+1 {
+				res.Violate("C20", "monitor:offsets-not-dense", fmt.Sprintf("event handler saw offset %d after %d in one epoch of %+v", x.Off, lastOff, cc), map[string]any{"log": log, "trace": evs})
+			}
+			lastOff = x.Off
+		}
+		if !x.Rm {
+			live[x.Key] = true
+			continue
+		}
+		if !live[x.Key] {
+			res.Violate("C24", "monitor:removal-of-absent-key", fmt.Sprintf("removal of key %s broadcast (offset %d) while the key was not in the state: removed twice (%+v)", x.Key, x.Off, cc), map[string]any{"log": log, "trace": evs})
+		}
+		delete(live, x.Key)
+		if x.ID != -1 { // an expiry removal: not before the last completed refresh + TTL
+			res.Count("expiry_removals_observed", 1)
+			for _, rf := range refreshes {
+				if rf.key == x.Key && rf.end < x.At-1 && x.At < rf.start+ttl-2 {
+					res.Violate("C24", "monitor:refreshed-key-removed", fmt.Sprintf("key %s removed by expiry %d ms after a completed publish/keep-alive, TTL %d ms (%+v)", x.Key, x.At-rf.start, ttl, cc), map[string]any{"log": log, "trace": evs})
+				}
+			}
+		}
+	}
+	res.Done(1, 1)
+	return evs
+}
